@@ -26,6 +26,7 @@
 From Coq Require Import ZArith QArith List Bool.
 From SV Require Import SyncModel Sync_Proofs.
 Import ListNotations.
+Local Open Scope nat_scope.
 
 (* the only assumption about the conversions, made by every theorem that mentions [oracle_ok]: they return a double
  adjacent to the rational *)
@@ -161,14 +162,88 @@ exists h, valid_run rnd_impl init h = true /\ mode (run rnd_impl init h) = Auto 
 Proof. exact (ex_intro _ hist_underflow underflow_refutes). Qed.
 Print Assumptions C07_auto_dimensions_agree_refuted.
 
-(* addRowRational(const mpq_t pointers) with an explicit zero in column 4 of a one-column LP *)
-Theorem C07_auto_gmp_zero_entry_dimensions_refuted :
-exists h, valid_run rnd_impl init h = true /\ ~ InSync (run rnd_impl init h).
-Proof. exact (ex_intro _ hist_gmp_zero gmp_zero_refutes). Qed.
-Print Assumptions C07_auto_gmp_zero_entry_dimensions_refuted.
-
 (* OBJSENSE_MINIMIZE, clearLPReal, addColRational(const mpq_t pointers, objective 5): real objective -5 *)
 Theorem C07_auto_gmp_addcol_objective_refuted :
 exists h, valid_run rnd_impl init h = true /\ ~ InSync (run rnd_impl init h).
 Proof. exact (ex_intro _ hist_gmp_sense gmp_sense_refutes). Qed.
 Print Assumptions C07_auto_gmp_addcol_objective_refuted.
+
+(* ---------------------------------------------------------------------------------------------------------
+   the assumption about the conversions can be met: truncation towards zero, saturating at the largest double *)
+Theorem C07_oracle_assumption_satisfiable : oracle_ok rnd_sat.
+Proof. exact rnd_sat_adj. Qed.
+Print Assumptions C07_oracle_assumption_satisfiable.
+
+(* ---------------------------------------------------------------------------------------------------------
+   Examples: the hypotheses are satisfiable by non-trivial states and histories, and what the theorems say there. *)
+Example ex_init_inv : Inv init.
+Proof.
+  split; [exact RealOK_empty|]. split; [apply WF2_empty|]. split; [discriminate|]. intros H. now elim H.
+Qed.
+
+(* a new object switched to SYNCMODE_AUTO *)
+Definition s_auto : state := step rnd_sat init (SetMode Auto).
+Example ex_auto_start : InSync s_auto /\ mode s_auto = Auto.
+Proof. destruct (C07_onlyreal_to_auto_exact_copy rnd_sat init eq_refl ex_init_inv) as (_ & _ & H1 & H2). now split. Qed.
+
+(* both interfaces interleaved: a column from each side, rows with non-representable fractions (1/3, 22/7, 1/10) and an
+   implicitly created column, an infinite side, the GMP element and right-hand-side entry points, a sense change, a removal *)
+Definition dh : dy := (1%Z, (-1)%Z).
+Definition ex_ops : list op :=
+  [ OR (RAddCol (dI 1, dI 0, dinf, []));
+    OQ (QAddCol false ((1 # 3)%Q, 0%Q, 2%Q, []));
+    OR (RAddRow (dI (-1), dI 5, [(0, dI 1); (1, dh)]));
+    OQ (QAddRow false ((-1 # 3)%Q, (10 # 3)%Q, [(0, (1 # 3)%Q); (2, (22 # 7)%Q)]));
+    OQ (QLhs 0 (1 # 10)%Q);
+    OR (RRange 1 (dneg dinf) (dI 7));
+    OQ (QElem true 0 1 (1 # 3)%Q);
+    OQ (QAddRows false [((0%Q, 1%Q), [(1, (1 # 7)%Q)])]);
+    SetSense false;
+    OQ (QObj 0 (1 # 7)%Q);
+    OR (RRemRow 0);
+    SetOffset dh;
+    OQ (GRhsV [(9 # 2)%Q]);
+    OR (RElem 0 0 (dI 3)) ].
+
+Example ex_hist_ok : hist_ok rnd_sat s_auto ex_ops.
+Proof. unfold ex_ops. cbn [hist_ok]. vm_compute. repeat split; auto. Qed.
+
+Example ex_hist_kept : hist_kept rnd_sat s_auto ex_ops.
+Proof. unfold ex_ops. cbn [hist_kept]. vm_compute. repeat split; auto. Qed.
+
+Example ex_result_in_sync : InSync (run rnd_sat s_auto ex_ops) /\ mode (run rnd_sat s_auto ex_ops) = Auto.
+Proof.
+  destruct ex_auto_start as [H1 H2].
+  exact (C07_auto_history_InSync_partial rnd_sat C07_oracle_assumption_satisfiable ex_ops s_auto H2 H1 ex_hist_ok).
+Qed.
+
+(* the final state: 2 rows, 3 columns in both LPs; the last row moved into the hole (0 <= . <= 9/2), the other one is free
+   below (UPPER) *)
+Example ex_result_shape :
+  let s := run rnd_sat s_auto ex_ops in
+  (nrows (rl s), ncols (rl s)) = (2, 3) /\ option_map (fun q => (nrows q, ncols q)) (ql s) = Some (2, 3) /\
+  rty s = [TBoxed; TUpper] /\ cty s = [TLower; TBoxed; TLower].
+Proof. vm_compute. repeat split; reflexivity. Qed.
+
+(* SYNCMODE_MANUAL: the two LPs are edited independently and then synchronised in either direction *)
+Definition ex_manual_ops : list op :=
+  [ SetMode Manual; OR (RAddCol (dI 1, dI 0, dinf, [])); OQ (QAddCol false ((1 # 3)%Q, (-1 # 7)%Q, 2%Q, [])) ].
+Example ex_manual_valid : valid_run rnd_sat init ex_manual_ops = true /\ mode (run rnd_sat init ex_manual_ops) = Manual.
+Proof. vm_compute. split; reflexivity. Qed.
+Example ex_manual_inv : Inv (run rnd_sat init ex_manual_ops).
+Proof.
+  unfold ex_manual_ops, run. cbn [fold_left].
+  repeat (apply (C07_invariant_step rnd_sat C07_oracle_assumption_satisfiable); [|vm_compute; reflexivity]).
+  exact ex_init_inv.
+Qed.
+(* before the sync the rational LP has the rational column only; afterwards it is the exact image of the real LP *)
+Example ex_manual_syncRat :
+  let s := run rnd_sat init ex_manual_ops in
+  option_map (@mobj Q) (ql s) = Some [(1 # 3)%Q] /\
+  ql (step rnd_sat s SyncRat) = Some (lp_map d2q (rl s)) /\ InSync (step rnd_sat s SyncRat).
+Proof.
+  split; [vm_compute; reflexivity|].
+  destruct (C07_manual_syncLPRational_establishes rnd_sat (run rnd_sat init ex_manual_ops)
+              (proj2 ex_manual_valid) ex_manual_inv) as (H1 & _ & H3).
+  now split.
+Qed.
